@@ -571,6 +571,8 @@ func runC02(c *mc.Ctx) {
 			if rn.SlpPrefix != "" {
 				bases = append(bases, ref.CashEncode(rn.SlpPrefix, 1, h))
 			}
+			// legacy Base58Check strings too (one with leading zero bytes in the hash)
+			bases = append(bases, ref.B58CheckEncode(rn.P2PKHID, h), ref.B58CheckEncode(rn.P2SHID, h), ref.B58CheckEncode(rn.P2PKHID, append([]byte{0, 0}, h[2:]...)))
 			for _, b := range bases {
 				for pos := 0; pos < len(b); pos++ {
 					for v := 0; v < 256; v++ {
@@ -597,7 +599,7 @@ func runC02(c *mc.Ctx) {
 				}
 			}
 		}
-		c.Space("every byte value / every ASCII-folding rune at every position of valid cashaddr strings", int64(len(subs)))
+		c.Space("every byte value at every position of valid cashaddr and legacy strings / every ASCII-folding rune at every position of valid cashaddr strings", int64(len(subs)))
 		c.ParFor(int64(len(subs)), func(w *mc.W, i int64) {
 			w.State()
 			c02EvalStr(w, c02StrOf(subs[i].net, subs[i].s))
